@@ -387,6 +387,43 @@ def r_lookup(ctx: Ctx, model):
            nontrivial_key=("setter",))
 
 
+def r_lookup_shapes(ctx: Ctx, model, js):
+    """the isotherm's adsorbate setter links the registry adsorbate for every *shape* of shipped name / alias: one representative per
+    distinct set of non-alphanumeric characters occurring in the shipped aliases (parentheses, commas, hyphens, blanks, slashes ...),
+    as written and upper-cased, over a registry holding the representatives' owners"""
+    ctx.rule("G-lookup (shapes): BaseIsotherm.adsorbate = <alias> links the owner of the alias for one representative of every "
+             "punctuation shape occurring in the shipped names / aliases, in lower and upper case")
+    I = make_interp(model)
+    ci = model.cls("pygaps.core.adsorbate.Adsorbate")
+    bi = model.cls("pygaps.core.baseisotherm.BaseIsotherm")
+    st = bi.setters.get("adsorbate")
+    reps = {}
+    for a in js:
+        for al in [a.get("name")] + list(a.get("alias", [])):
+            if isinstance(al, str):
+                reps.setdefault(frozenset(ch for ch in al if not ch.isalnum()), (a["name"], al))
+    ctx.floor("punctuation shapes among shipped aliases", len(reps), 8)
+    owners = {}
+    for a in js:
+        if a["name"] in {o for o, _ in reps.values()}:
+            owners[a["name"]] = Obj(cls=ci, label=a["name"], attrs={"name": a["name"], "alias": [x.lower() for x in a.get("alias", [])] + [a["name"].lower()],
+                                                                      "properties": {}})
+    I.const_overrides[("pygaps.data", "ADSORBATE_LIST")] = list(owners.values())
+    n = 0
+    for owner, alias in sorted(reps.values()):
+        for probe in (alias, alias.upper()):
+            iso = Obj(cls=bi, label="iso", attrs={})
+            outs = I.explore(lambda I: (I.call_func(st, [probe], {}, None, self_obj=iso), iso.attrs.get("_adsorbate"))[1])
+            n += 1
+            got = getattr(outs[0].value, "label", None) if len(outs) == 1 and outs[0].kind == "ok" else repr(outs[:1])
+            shape = "".join(sorted(ch for ch in set(alias) if not ch.isalnum())) or "alnum"
+            ctx.ob(got == owner, Finding("C20.G-lookup", st.where, f"BaseIsotherm.adsorbate|alias-shape:{shape!r}|{'upper' if probe != alias else 'as-written'}",
+                                         f"isotherm.adsorbate = {probe!r} (a shipped alias of '{owner}') links {got!r}; required the shipped adsorbate "
+                                         f"'{owner}' - every shipped name / alias must resolve, in any letter case"),
+                   nontrivial_key=("setter-shape", shape, probe != alias))
+    ctx.analysed["alias shapes probed"] = n
+
+
 def run(ctx: Ctx):
     model = load(ctx.root)
     js = load_json(ctx.root)
@@ -397,6 +434,7 @@ def run(ctx: Ctx):
     r_agree(ctx, js, db)
     r_backend(ctx, js)
     r_lookup(ctx, model)
+    r_lookup_shapes(ctx, model, js)
     r_getters(ctx, model)
     ctx.extra["exhaustive"] = True
     ctx.analysed["adsorbates"] = len(js)
